@@ -183,6 +183,15 @@ class Runner:
         """An expression statement `recv.method(...)` on a modelled object; return True when handled."""
         return False
 
+    def initial_env(self):
+        """Values of names at entry (e.g. a parameter bound to one concrete value of a finite domain)."""
+        return {}
+
+    def iter_view(self, it):
+        """The evaluated iterable of a `for` as a display of its elements when the subclass knows them (a dict literal
+        iterates over its keys, ...); default: the value itself."""
+        return it
+
     # ---- driver --------------------------------------------------------------------
     def paths(self):
         if self._paths is None:
@@ -595,7 +604,7 @@ class Runner:
     def _run(self, script):
         cfg = self.cfg
         self.script = script
-        self.env = {}
+        self.env = dict(self.initial_env())
         self.heap = {}
         self.path = p = RPath()
         self.state = p.state = self.new_state()
@@ -656,7 +665,7 @@ class Runner:
                     visits[nid] = k + 1
                     st = node.ast
                     if k == 0:
-                        iters[nid] = self.ev(st.iter)
+                        iters[nid] = self.iter_view(self.ev(st.iter))
                     it = iters[nid]
                     lit = isinstance(it, (ast.List, ast.Tuple)) and not any(isinstance(x, ast.Starred) for x in it.elts) and self.unroll and len(it.elts) <= 8
                     if lit:
@@ -738,6 +747,167 @@ def _single_atom(p):
 
 
 # ---------------------------------------------------------------------------
+# evaluation of a small classifier over a finite domain of named constants
+
+class ConcreteRunner(Runner):
+    """Runs a function with some parameters bound to *concrete* values of a finite domain that the rule defines
+    (`value_of(e)` -> hashable value of an evaluated expression or None; `global_value(name)` / `attr_value(e)` -> the
+    defining expression of a module-level name / class-level attribute that holds a table, or None).  Everything that is
+    decidable over such values is decided: `==`/`!=`/`is`/`is not` between two concrete values, `in`/`not in` a display or a
+    dict display whose elements / keys are concrete, `D[k]`, `D.get(k[, d])`, `D.items()/.keys()/.values()`, iteration over
+    a dict display, comprehensions / generator expressions over a display (unrolled), `next(display[, default])`,
+    `any(..)`/`all(..)` of a display of constants.  So an if-chain, a `match`, a table, a loop over the known members
+    comparing one of their fields, `next(s for s in members if ...)` are all the same function: the rule looks at what is
+    *returned for each argument*, not at how the function finds it.  Conditions that are not decidable stay uninterpreted
+    (both outcomes are explored), so a verdict over all returning paths is an over-approximation of the function."""
+
+    def __init__(self, fi, prog, binding, value_of, global_value=None, attr_value=None):
+        super().__init__(fi, prog=prog, fork_values=True)
+        self.binding = dict(binding)
+        self.value_of = value_of
+        self.global_value = global_value or (lambda name: None)
+        self.attr_value = attr_value or (lambda e: None)
+        self._globals_busy = set()
+
+    def initial_env(self):
+        return self.binding
+
+    @staticmethod
+    def _display(e):
+        if isinstance(e, (ast.List, ast.Tuple, ast.Set)) and not any(isinstance(x, ast.Starred) for x in e.elts):
+            return list(e.elts)
+        return None
+
+    def iter_view(self, it):
+        if isinstance(it, ast.Dict) and all(k is not None for k in it.keys):
+            return ast.Tuple(elts=list(it.keys), ctx=ast.Load())
+        if isinstance(it, ast.Set) and self._display(it) is not None:
+            return ast.Tuple(elts=list(it.elts), ctx=ast.Load())
+        return it
+
+    def _foreign(self, expr):
+        """Evaluate the defining expression of a module-level / class-level constant (outside the function's locals)."""
+        saved, self.env = self.env, {}
+        try:
+            return self.ev(expr)
+        finally:
+            self.env = saved
+
+    def ev(self, e, bound=frozenset()):
+        if isinstance(e, ast.Name) and isinstance(e.ctx, ast.Load) and e.id not in bound and e.id not in self.env and e.id not in self._globals_busy:
+            g = self.global_value(e.id)
+            if g is not None:
+                self._globals_busy.add(e.id)
+                try:
+                    return self._foreign(g)
+                finally:
+                    self._globals_busy.discard(e.id)
+        if isinstance(e, (ast.ListComp, ast.SetComp, ast.GeneratorExp, ast.DictComp)) and not bound and len(e.generators) == 1 and not e.generators[0].is_async:
+            g = e.generators[0]
+            elts = self._display(self.iter_view(self.ev(g.iter)))
+            if elts is not None and len(elts) <= 16:
+                targets = {x.id for x in ast.walk(g.target) if isinstance(x, ast.Name)}
+                saved = {k: self.env[k] for k in targets if k in self.env}
+                out = []
+                try:
+                    for el in elts:
+                        self._bind(g.target, el, None)
+                        if all(self.truthv(self.ev(c)) for c in g.ifs):
+                            out.append((self.ev(e.key), self.ev(e.value)) if isinstance(e, ast.DictComp) else self.ev(e.elt))
+                finally:
+                    for k in targets:
+                        self.env.pop(k, None)
+                    self.env.update(saved)
+                if isinstance(e, ast.DictComp):
+                    d = ast.Dict(keys=[], values=[])
+                    for k, v in out:
+                        d = _dict_set(d, k, v)
+                    return ast.copy_location(d, e)
+                if isinstance(e, ast.SetComp):
+                    return ast.copy_location(ast.Set(elts=out), e)
+                return ast.copy_location(ast.List(elts=out, ctx=ast.Load()), e)
+        return super().ev(e, bound)
+
+    def _dict_lookup(self, d, key):
+        """('hit', value) | ('miss',) | None when not decidable"""
+        if not isinstance(d, ast.Dict) or any(k is None for k in d.keys):
+            return None
+        kv = self.value_of(key)
+        vals = [self.value_of(k) for k in d.keys]
+        if kv is None or any(v is None for v in vals):
+            return None
+        hit = None
+        for v, x in zip(vals, d.values):
+            if v == kv:
+                hit = x  # a later duplicate key wins, as in a dict display
+        return ("hit", hit) if hit is not None else ("miss",)
+
+    def eval_hook(self, e):
+        if isinstance(e, ast.Attribute):
+            a = self.attr_value(e)
+            return self._foreign(a) if a is not None else None
+        if isinstance(e, ast.Compare) and len(e.ops) == 1:
+            l, op, r = e.left, e.ops[0], e.comparators[0]
+            if isinstance(op, (ast.Eq, ast.NotEq, ast.Is, ast.IsNot)):
+                a, b = self.value_of(l), self.value_of(r)
+                if a is not None and b is not None:
+                    return ast.Constant(value=(a == b) == isinstance(op, (ast.Eq, ast.Is)))
+            if isinstance(op, (ast.In, ast.NotIn)):
+                a = self.value_of(l)
+                elts = self._display(self.iter_view(r))
+                if a is not None and elts is not None:
+                    vals = [self.value_of(x) for x in elts]
+                    if all(v is not None for v in vals):
+                        return ast.Constant(value=(a in vals) == isinstance(op, ast.In))
+            return None
+        if isinstance(e, ast.Subscript) and not isinstance(e.slice, ast.Slice):
+            r = self._dict_lookup(e.value, e.slice)
+            if r is not None:
+                if r[0] == "miss":
+                    raise PyRaise("KeyError")
+                return r[1]
+            return None
+        if isinstance(e, ast.Call):
+            f = e.func
+            if isinstance(f, ast.Attribute) and isinstance(f.value, ast.Dict) and not e.keywords and all(k is not None for k in f.value.keys):
+                d = f.value
+                if f.attr == "get" and 1 <= len(e.args) <= 2:
+                    r = self._dict_lookup(d, e.args[0])
+                    if r is not None:
+                        return r[1] if r[0] == "hit" else (e.args[1] if len(e.args) == 2 else ast.Constant(value=None))
+                if not e.args and f.attr == "items":
+                    return ast.Tuple(elts=[ast.Tuple(elts=[k, v], ctx=ast.Load()) for k, v in zip(d.keys, d.values)], ctx=ast.Load())
+                if not e.args and f.attr == "keys":
+                    return ast.Tuple(elts=list(d.keys), ctx=ast.Load())
+                if not e.args and f.attr == "values":
+                    return ast.Tuple(elts=list(d.values), ctx=ast.Load())
+            if isinstance(f, ast.Name) and f.id not in self.env and not e.keywords:
+                if f.id in ("next", "any", "all", "iter", "tuple", "list") and e.args:
+                    elts = self._display(self.iter_view(e.args[0]))
+                    if elts is not None:
+                        if f.id == "next" and len(e.args) <= 2:
+                            if elts:
+                                return elts[0]
+                            if len(e.args) == 2:
+                                return e.args[1]
+                            raise PyRaise("StopIteration")
+                        if f.id in ("any", "all") and len(e.args) == 1 and all(isinstance(x, ast.Constant) for x in elts):
+                            return ast.Constant(value=(any if f.id == "any" else all)(bool(x.value) for x in elts))
+                        if f.id == "iter" and len(e.args) == 1:
+                            return ast.Tuple(elts=elts, ctx=ast.Load())
+                if f.id == "dict" and len(e.args) == 1:
+                    if isinstance(e.args[0], ast.Dict):
+                        return e.args[0]
+                    pairs = self._display(e.args[0])
+                    if pairs is not None and all(self._display(x) is not None and len(x.elts) == 2 for x in pairs):
+                        d = ast.Dict(keys=[], values=[])
+                        for x in pairs:
+                            d = _dict_set(d, x.elts[0], x.elts[1])
+                        return d
+        return None
+
+
+# ---------------------------------------------------------------------------
 # integer facts
 
 def nf_lt(p):
@@ -793,7 +963,44 @@ class OptionReader(Runner):
         self.LEN = Poly.atom("len(P)")
 
     def new_state(self):
-        return {"int_facts": set(), "empty": None}
+        return {"int_facts": set(), "empty": None, "reads": []}
+
+    # -- single bytes read from the option
+    def ev(self, e, bound=frozenset()):
+        out = super().ev(e, bound)
+        if isinstance(e, ast.Subscript) and not bound and isinstance(out, ast.Subscript) and not isinstance(out.slice, ast.Slice):
+            self._byte_read(e, out)
+        return out
+
+    def _ge0(self, want):
+        c = want.const_value()
+        return c >= 0 if c is not None else entails_ge0(self.state["int_facts"], want)
+
+    def _byte_read(self, site, out):
+        """`W[i]` on a window W = P[lo:hi] of the option reads the byte P[lo+i]; it raises IndexError unless lo + i < len(P)
+        (and, for a bounded window, lo + i < hi).  The read is a *decision* of the path like any test: where the integer facts
+        known when the read is evaluated already imply it (a check that follows the read does not count) nothing happens; where
+        they refute it the path continues as an IndexError; otherwise both outcomes are explored, the in-bounds one with the fact
+        added.  Whichever local the window travelled through and whichever spelling established the fact (`not W`,
+        `len(W) < 1`, `len(P) < 2 + n`, a merged check, `try: W[0] except IndexError`) is immaterial."""
+        try:
+            w = self.window(out.value)
+        except AnalysisError:
+            return
+        if w is None:
+            return
+        i = self.intval(out.slice)
+        # bytes, masked bytes and lengths are the atoms of this domain: all non-negative, so a polynomial without a negative
+        # coefficient is non-negative
+        if not (all(v >= 0 for v in i.t.values()) or self._ge0(i)):
+            raise AnalysisError("C11: _uncompress indexes the option with something that may be negative: %s" % txt(out)[:80])
+        pos = w[0] + i
+        known = sorted(map(repr, self.state["int_facts"])) or "nothing"
+        for bound in [self.LEN] + ([w[1]] if w[1] is not None else []):
+            if not self._decide_nf(self._const_or(nf_lt(pos - bound))):
+                self.state["reads"].append((site, False, "byte %r of the option is read where only this is known about its length: %s" % (pos, known)))
+                raise PyRaise("IndexError")
+        self.state["reads"].append((site, True, None))
 
     # -- windows and integers
     def window(self, e):
@@ -825,6 +1032,16 @@ class OptionReader(Runner):
             return (a + lo, a + hi)
         return None
 
+    def winlen(self, w):
+        """Length of the window P[lo:hi] (lo <= len(P) by the checks that precede every cut): len(P) - lo for an open one; for a
+        bounded one hi - lo where the option is known to reach hi, len(P) - lo where it is known not to, and a decision of the
+        path otherwise (`s = tail[:1]` followed by `if not s:` is a length check like any other)."""
+        if w[1] is None:
+            return self.LEN - w[0]
+        if (w[1] - w[0]).const_value() == 0:
+            return Poly.const(0)
+        return (w[1] - w[0]) if self._decide_nf(self._const_or(nf_ge0(self.LEN - w[1]))) else (self.LEN - w[0])
+
     def intval(self, e):
         if isinstance(e, ast.Constant) and isinstance(e.value, int) and not isinstance(e.value, bool):
             return Poly.const(e.value)
@@ -844,7 +1061,7 @@ class OptionReader(Runner):
         if isinstance(e, ast.Call) and _is_len(e):
             w = self.window(e.args[0])
             if w is not None:
-                return (w[1] - w[0]) if w[1] is not None else (self.LEN - w[0])
+                return self.winlen(w)
         if isinstance(e, ast.UnaryOp) and isinstance(e.op, ast.USub):
             return -self.intval(e.operand)
         if isinstance(e, ast.BinOp):
@@ -884,13 +1101,19 @@ class OptionReader(Runner):
             if any(isinstance(x, ast.Name) and x.id == self.P for x in ast.walk(cond)):
                 raise AnalysisError("C11.d: _uncompress branches on a condition over the option bytes that the rule cannot interpret: %s" % txt(cond))
             return None
+        if not isinstance(nf, bool) and nf[0] in ("eq", "ne"):
+            equal = not self._decide_nf(self._const_or(nf_lt(nf[1]))) and not self._decide_nf(self._const_or(nf_lt(-nf[1])))
+            return equal == (nf[0] == "eq")
+        return self._decide_nf(nf)
+
+    def _decide_nf(self, nf):
         if isinstance(nf, bool):
             return nf
         facts = self.state["int_facts"]
         neg = nf_ge0(nf[1])
-        if nf in facts:
+        if nf in facts or entails_lt0(facts, nf[1]):
             return True
-        if neg in facts:
+        if neg in facts or entails_lt0(facts, neg[1]):
             return False
         # canonical key: the textually smaller of the fact and its negation
         a, b = repr(nf), repr(neg)
@@ -910,7 +1133,7 @@ class OptionReader(Runner):
                 if isinstance(op, (ast.Eq, ast.NotEq)) and (wl is not None or wr is not None):
                     other, w = (r, wl) if wl is not None else (l, wr)
                     if isinstance(other, ast.Constant) and other.value == b"":
-                        ln = (w[1] - w[0]) if w[1] is not None else (self.LEN - w[0])
+                        ln = self.winlen(w)
                         res = nf_lt(ln - Poly.const(1))  # len == 0  <=>  len < 1
                         return self._const_or(res if isinstance(op, ast.Eq) else nf_ge0(res[1]))
                     return None
@@ -934,10 +1157,12 @@ class OptionReader(Runner):
                     d = (a - b).const_value()
                     if d is not None:
                         return (d == 0) == isinstance(op, ast.Eq)
+                    # a == b  <=>  not a < b and not b < a: two decisions of the path (`len(head) != 1`, `len(tail) == s`)
+                    return ("eq" if isinstance(op, ast.Eq) else "ne", a - b)
                 return None
             w = self.window(e)
             if w is not None:  # truthiness of a window: its length is positive
-                ln = (w[1] - w[0]) if w[1] is not None else (self.LEN - w[0])
+                ln = self.winlen(w)
                 return self._const_or(nf_lt(-ln))
             if self.is_intlike(e):  # truthiness of a non-negative integer
                 return self._const_or(nf_lt(-self.intval(e)))
